@@ -616,7 +616,7 @@ pub fn run(cfg: &Cfg) -> i32 {
     }
     for need in ["bits:ok", "bits:fail", "bytes:fail", "uint:ok", "int:fail", "magic:ok", "magic:fail", "seek:ok", "seek:fail", "find:ok", "nulbytestr:ok", "cstr:ok", "close:ok", "close-empty:fail", "open-slice:ok", "float:ok", "fN:ok"] {
         if fam.get(need).copied().unwrap_or(0) == 0 && !rep.has_unknown() {
-            machinery_error(&format!("vacuous: no transition of class {}", need));
+            vacuous(&format!("vacuous: no transition of class {}", need));
         }
     }
     ev.states = nstates;
